@@ -10,6 +10,7 @@ import Driver.FC
 import Driver.Seq
 import Driver.BS
 import Driver.Crash
+import Driver.Sched
 
 open Driver
 
@@ -20,6 +21,7 @@ inductive Eng where
   | seq (s : Driver.Seq.St)
   | bs (s : Driver.BS.St)
   | crash (s : Driver.Crash.St)
+  | sched (s : Driver.Sched.St)
 
 structure DState where
   eng : Eng := .none
@@ -41,6 +43,7 @@ def newEngine (hdr : Args) : Eng :=
   | "seq" => .seq {}
   | "bs" => .bs {}
   | "crash" => .crash {}
+  | "sched" => .sched {}
   | _ => .none
 
 def stepEng (e : Eng) (l : Line) : Eng × List Msg :=
@@ -51,6 +54,7 @@ def stepEng (e : Eng) (l : Line) : Eng × List Msg :=
   | .seq s => let (s', m) := Driver.Seq.step s l; (.seq s', m)
   | .bs s => let (s', m) := Driver.BS.step s l; (.bs s', m)
   | .crash s => let (s', m) := Driver.Crash.step s l; (.crash s', m)
+  | .sched s => let (s', m) := Driver.Sched.step s l; (.sched s', m)
 
 partial def loop (h : IO.FS.Stream) (out : IO.FS.Stream) (st : DState) : IO Unit := do
   let line ← h.getLine
